@@ -56,9 +56,18 @@ class Ctx:
         self.tmp = tempfile.mkdtemp(prefix="verif_%s_" % pid)
         self.cache_home = os.path.join(self.tmp, "xdg")
         os.makedirs(self.cache_home)
-        self.rundir = os.path.join(COQ, "run", pid)
-        shutil.rmtree(self.rundir, ignore_errors=True)
-        os.makedirs(self.rundir)
+        # one run directory per invocation, so that a --replay or a second check of the same
+        # property started meanwhile cannot wipe the generated .v files of this one
+        base = os.path.join(COQ, "run", pid)
+        os.makedirs(base, exist_ok=True)
+        for old in os.listdir(base):
+            op = os.path.join(base, old)
+            try:
+                if time.time() - os.path.getmtime(op) > 6 * 3600:
+                    shutil.rmtree(op, ignore_errors=True) if os.path.isdir(op) else os.unlink(op)
+            except OSError:
+                pass
+        self.rundir = tempfile.mkdtemp(prefix="r%d_" % os.getpid(), dir=base)
         # results
         self.obligations = []  # (name, ok, detail)
         self.trusted = []
@@ -85,6 +94,8 @@ class Ctx:
 
     def cleanup(self):
         shutil.rmtree(self.tmp, ignore_errors=True)
+        if not self.violations:
+            shutil.rmtree(self.rundir, ignore_errors=True)
 
 
 # ---------------------------------------------------------------------------
